@@ -175,6 +175,52 @@ def _single_char_set(sub, alphabet):
     return None
 
 
+def _single_char_any(sub, alphabet, dotall=False):
+    """Like _single_char_set, also for `.`, negated literals and character classes."""
+    cs = _single_char_set(sub, alphabet)
+    if cs is not None:
+        return cs
+    if len(sub) == 1:
+        op, av = sub[0]
+        if op == C.ANY:
+            return frozenset(alphabet if dotall else alphabet - {'\n'})
+        if op == C.NOT_LITERAL:
+            return frozenset(alphabet - {chr(av)})
+        if op == C.SUBPATTERN:
+            return _single_char_any(av[3], alphabet, dotall)
+    return None
+
+
+class Peek:
+    """Edge label for a one-character look-ahead: the next character must be in `chars`
+    (`allow_end`: the end of the input also satisfies it - negative look-ahead)."""
+
+    def __init__(self, chars, allow_end):
+        self.chars = frozenset(chars)
+        self.allow_end = allow_end
+
+
+class Behind:
+    """Edge label for a one-character look-behind: the character consumed last must (not) be in `chars`.
+    At the very start of the matched text nothing is known about what precedes it: the assertion is let through
+    there (a superset of the matchable texts - sound for showing inclusion in another language)."""
+
+    def __init__(self, chars, negate):
+        self.chars = frozenset(chars)
+        self.negate = negate
+
+    def ok(self, last):
+        if last is None:
+            return True
+        return (last not in self.chars) if self.negate else (last in self.chars)
+
+
+def _merge_peek(r, p):
+    if r is None:
+        return (p.chars, p.allow_end)
+    return (r[0] & p.chars, r[1] and p.allow_end)
+
+
 class Builder:
     def __init__(self, alphabet, flags=0, groupvals=None):
         self.alphabet = frozenset(alphabet)
@@ -264,6 +310,15 @@ class Builder:
             if av not in self.groupvals:
                 raise RxUnsupported('backreference to a group that is not a single character')
             n.edge(a, frozenset([self.groupvals[av]]), b)
+        elif op in (C.ASSERT, C.ASSERT_NOT) and av[0] > 0 and (_single_char_any(av[1], self.alphabet, self.dotall) is not None):
+            # one-character look-ahead: a restriction on the next character to be consumed
+            cs = _single_char_any(av[1], self.alphabet, self.dotall)
+            if op == C.ASSERT:
+                n.edge(a, Peek(cs, False), b)
+            else:
+                n.edge(a, Peek(self.alphabet - cs, True), b)
+        elif op in (C.ASSERT, C.ASSERT_NOT) and av[0] < 0 and not leading and _single_char_any(av[1], self.alphabet, self.dotall) is not None:
+            n.edge(a, Behind(_single_char_any(av[1], self.alphabet, self.dotall), op == C.ASSERT_NOT), b)
         elif op == C.ASSERT_NOT and av[0] < 0 and leading:
             # negative look-behind at offset 0 of a `match`: nothing precedes, vacuously true
             n.edge(a, EPS, b)
@@ -316,28 +371,35 @@ class Lang:
         self.nfas = build_nfas(pattern, flags, self.alphabet, relax_backrefs=relax_backrefs)
 
     # run-state: frozenset of (nfa_index, state, endmode); state -1 = "matched, in suffix loop"
+    # run-state items: (nfa index, state, endmode, pending one-character look-ahead or None)
     def initial(self):
-        return self._closure({(i, n.start, 0) for i, n in enumerate(self.nfas)})
+        return self._closure({(i, n.start, 0, None) for i, n in enumerate(self.nfas)})
 
-    def _closure(self, items):
+    def _closure(self, items, last=None):
         seen = set(items)
         stack = list(items)
         while stack:
-            i, q, m = stack.pop()
+            i, q, m, r = stack.pop()
             if q == -1:
                 continue
             n = self.nfas[i]
             if q == n.accept and self.mode == 'match':
-                x = (i, -1, m)
+                x = (i, -1, m, r)
                 if x not in seen:
                     seen.add(x)
             for label, t in n.trans[q]:
                 if label is EPS:
-                    x = (i, t, m)
+                    x = (i, t, m, r)
                 elif label is AT_END:
-                    x = (i, t, max(m, 1))
+                    x = (i, t, max(m, 1), r)
                 elif label is AT_END_STRING:
-                    x = (i, t, 2)
+                    x = (i, t, 2, r)
+                elif isinstance(label, Peek):
+                    x = (i, t, m, _merge_peek(r, label))
+                elif isinstance(label, Behind):
+                    if not label.ok(last):
+                        continue
+                    x = (i, t, m, r)
                 else:
                     continue
                 if x not in seen:
@@ -347,9 +409,11 @@ class Lang:
 
     def step(self, S, c):
         nxt = set()
-        for i, q, m in S:
+        for i, q, m, r in S:
             if m == 2:
                 continue
+            if r is not None and c not in r[0]:
+                continue                    # the look-ahead is not satisfied by this character
             if m == 1:
                 if c != '\n':
                     continue
@@ -357,15 +421,17 @@ class Lang:
             else:
                 m2 = 0
             if q == -1:
-                nxt.add((i, -1, m2))
+                nxt.add((i, -1, m2, None))
                 continue
             for label, t in self.nfas[i].trans[q]:
                 if isinstance(label, frozenset) and c in label:
-                    nxt.add((i, t, m2))
-        return self._closure(nxt)
+                    nxt.add((i, t, m2, None))
+        return self._closure(nxt, last=c)
 
     def accepting(self, S):
-        for i, q, m in S:
+        for i, q, m, r in S:
+            if r is not None and not r[1]:
+                continue                    # a positive look-ahead still waits for its character
             if q == -1:
                 return True
             if self.mode == 'full' and q == self.nfas[i].accept:
@@ -379,6 +445,8 @@ class Lang:
                 for label, _ in edges:
                     if isinstance(label, frozenset):
                         sets.add(label)
+                    elif isinstance(label, (Peek, Behind)):
+                        sets.add(label.chars)
         return sets
 
 
